@@ -48,6 +48,24 @@ def main():
         json.dump(meta, open(mp, "w"), indent=1)
         rows.append((sid, meta["breaks_property"], sorted(caught), caught, errs))
         print(sid, "->", sorted(caught) or "NOT CAUGHT", ("analysis-errors: %s" % sorted(errs)) if errs else "")
+    if only:
+        # a partial run: replace / add the rows of the seeds just checked, keep the others as last recorded
+        mpath = os.path.join(SEEDED, "MATRIX.md")
+        lines = open(mpath).read().splitlines() if os.path.exists(mpath) else []
+        head = [l for l in lines if not (l.startswith("| C") and l.split("|")[1].strip()[:1] == "C" and "-" in l.split("|")[1])]
+        old_rows = {l.split("|")[1].strip(): l for l in lines if l.startswith("| C") and "-" in l.split("|")[1]}
+        for sid, prop, cb, caught, errs in rows:
+            first = ""
+            for p in cb:
+                if caught[p]:
+                    first = caught[p][0]
+                    break
+            old_rows[sid] = "| %s | %s | %s | %s |" % (sid, prop, ", ".join(cb) or "**nothing**", first.replace("|", "/")[:150])
+        def _key(s_):
+            a, b = s_.split("-")
+            return (a, int(b))
+        with open(mpath, "w") as fh:
+            fh.write("\n".join(head + [old_rows[k] for k in sorted(old_rows, key=_key)]) + "\n")
     if not only:
         with open(os.path.join(SEEDED, "MATRIX.md"), "w") as fh:
             fh.write("# Seeded breaking changes vs checks\n\nEach change was produced by a fresh sub-agent that saw only the property text "
